@@ -18,11 +18,17 @@ PIPES["boundsclone"] = bounds_pipe
 
 def run(ctx, verdict):
     cfg = "GeomOps_C16_quick.cfg" if ctx.quick else "GeomOps_C16_thorough.cfg"
-    gc.explore(ctx, verdict, "C16", cfg)
+    # design laws of the storage notion the clone rule uses (Go slice ranges, append in place / elsewhere)
+    r = vlib.tlc(ctx, "StorageModel", "StorageModel.cfg", workers=2, name="StorageModel")
+    ctx.states += r["distinct"]
+    ctx.transitions += r["generated"]
+    gc.explore(ctx, verdict, "C16", cfg, case_extra=dict(sto=True))
     # geom.Bounds and geom.Coord are cloneable too (Bounds specification, family "clone")
     out, r = vlib.model_a(ctx, "BoundsModel", "Bounds_clone_%s.cfg" % ("quick" if ctx.quick else "thorough"), ["CASE"], workers=8)
     bcases = sorted(out["CASE"], key=vlib.digest)
     ctx.coverage_extra.setdefault("model_a", []).append(dict(cfg="Bounds_clone", cases=len(bcases)))
     bounds_pipe(ctx, verdict, bcases)
     ctx.assumptions += ["ordinates are opaque tokens instantiated from a palette of 128 float64 bit patterns (rotated by seed)",
-                        "independence is judged on everything the public API shows (FlatCoords, Ends, Endss, Coords, parts, SRID, layout)"]
+                        "independence is judged on everything the public API shows (FlatCoords, Ends, Endss, Coords, parts, SRID, layout)",
+                        "shared storage right after Clone is judged on the capacity ranges of every slice the two values hold (read by "
+                        "reflection, addresses replaced by their ranks): Storage!Disjoint"]
